@@ -19,7 +19,9 @@ use quil_rs::instruction::{
     DefGateSequence, DefGateSequenceExpansionError, Fence, Gate, GateDefinition, GateModifier, GateSpecification,
     Instruction, Label, Measurement, MemoryReference, Pragma, Qubit, QubitPlaceholder, Reset, Target,
 };
-use quil_rs::program::ProgramError;
+use quil_rs::program::{DefGateSequenceExpansion, ExpansionResult, InstructionIndex, ProgramError, SourceMap};
+use quil_rs::quil::Quil;
+use std::str::FromStr;
 use quil_rs::verif_hooks;
 use quil_rs::Program;
 
@@ -53,22 +55,57 @@ pub struct Case {
     pub sel: Vec<String>,
 }
 
-/// The opaque non-gate body instructions (`other k`).
-pub fn other_table() -> Vec<Instruction> {
-    vec![
-        Instruction::Reset(Reset { qubit: None }),
-        Instruction::Measurement(Measurement {
-            name: None,
-            qubit: Qubit::Fixed(0),
-            target: Some(MemoryReference { name: "ro".to_string(), index: 0 }),
-        }),
-        Instruction::Halt(),
-        Instruction::Nop(),
-        Instruction::Label(Label { target: Target::Fixed("l".to_string()) }),
-        Instruction::Pragma(Pragma::new("NOTE".to_string(), vec![], Some("a 0".to_string()))),
-        Instruction::Fence(Fence { qubits: vec![Qubit::Fixed(0), Qubit::Fixed(1)] }),
-        Instruction::Reset(Reset { qubit: Some(Qubit::Fixed(1)) }),
-    ]
+/// Non-body program components added to a quarter of the cases (see `Case::build_with`).
+pub const EXTRAS: &str = "DECLARE ro BIT[2]\nDECLARE theta REAL[1]\nDEFFRAME 0 \"rf\":\n    SAMPLE-RATE: 1.0\n    INITIAL-FREQUENCY: 2.0\nDEFWAVEFORM w:\n    1.0, 0.5\nDEFCAL X 5:\n    PULSE 0 \"rf\" w\n    a 5\nDEFCAL MEASURE 6 addr:\n    CAPTURE 0 \"rf\" w addr\nDEFCIRCUIT circ q:\n    H q\n    b q\nPRAGMA EXTERN foo \"(x : INTEGER)\"\n";
+
+/// The opaque non-gate body instructions (`other k`): 8 hand-written ones, then one instance of EVERY other
+/// body-level variant of `Instruction` (from the shared `instrgen`, fixed seed), so that "all other instructions
+/// stay unchanged" is observed for rarely used kinds too (JUMP-WHEN, CAPTURE, SET-PHASE, CALL, LOAD, WAIT …).
+pub fn other_table() -> &'static Vec<Instruction> {
+    static TABLE: std::sync::OnceLock<Vec<Instruction>> = std::sync::OnceLock::new();
+    TABLE.get_or_init(|| {
+        let mut v = vec![
+            Instruction::Reset(Reset { qubit: None }),
+            Instruction::Measurement(Measurement {
+                name: None,
+                qubit: Qubit::Fixed(0),
+                target: Some(MemoryReference { name: "ro".to_string(), index: 0 }),
+            }),
+            Instruction::Halt(),
+            Instruction::Nop(),
+            Instruction::Label(Label { target: Target::Fixed("l".to_string()) }),
+            Instruction::Pragma(Pragma::new("NOTE".to_string(), vec![], Some("a 0".to_string()))),
+            Instruction::Fence(Fence { qubits: vec![Qubit::Fixed(0), Qubit::Fixed(1)] }),
+            Instruction::Reset(Reset { qubit: Some(Qubit::Fixed(1)) }),
+        ];
+        let alpha = crate::instrgen::Alpha::small();
+        let mut rng = Rng::new(0xC20);
+        for name in crate::instrgen::VARIANTS {
+            if matches!(
+                name,
+                "CalibrationDefinition"
+                    | "CircuitDefinition"
+                    | "Declaration"
+                    | "FrameDefinition"
+                    | "GateDefinition"
+                    | "MeasureCalibrationDefinition"
+                    | "WaveformDefinition"
+                    | "Gate"
+            ) {
+                continue;
+            }
+            for _ in 0..2 {
+                let i = crate::instrgen::gen_variant(&mut rng, &alpha, name, 0);
+                // must be a body instruction (not routed elsewhere by add_instruction) and new to the table
+                let mut probe = Program::new();
+                probe.add_instruction(i.clone());
+                if probe.body_instructions().count() == 1 && !matches!(i, Instruction::Gate(_)) && !v.contains(&i) {
+                    v.push(i);
+                }
+            }
+        }
+        v
+    })
 }
 
 pub fn gate(name: &str, params: Vec<Expression>, qubits: Vec<Qubit>, mods: Vec<GateModifier>) -> Gate {
@@ -85,8 +122,22 @@ impl Case {
     /// Build the real `Program` through `add_instruction`. `None` if quil-rs's own constructors reject a
     /// definition (the generators avoid that; such cases are skipped, never emitted).
     pub fn build(&self) -> Option<Program> {
+        self.build_with(false)
+    }
+
+    /// `extras`: the program additionally carries a declaration, a frame, a waveform, a calibration (whose body
+    /// invokes `a`), a measure calibration, a circuit and an EXTERN pragma — none of them body instructions —
+    /// so that "the two entry points return the same *program*" is observed on every component.
+    pub fn build_with(&self, extras: bool) -> Option<Program> {
         let others = other_table();
         let mut p = Program::new();
+        if extras {
+            let extra = Program::from_str(EXTRAS).expect("extras parse");
+            if extra.body_instructions().count() != 0 {
+                return None;
+            }
+            p.add_instructions(extra.to_instructions());
+        }
         for d in &self.defs {
             let spec = match &d.spec {
                 SpecDesc::Other => GateSpecification::Permutation(vec![1, 0]),
@@ -172,6 +223,20 @@ pub fn instr_to_sexp(i: &Instruction, t: &mut PhTable) -> Sexp {
 }
 
 pub fn case_to_sexp(c: &Case, t: &mut PhTable) -> Sexp {
+    case_to_sexp_with(c, false, t)
+}
+
+/// Emit one case through BOTH entry points (`observe`). Every fourth case carries the extra program components.
+pub fn emit_case(ctx: &mut crate::Ctx, c: &Case) {
+    let extras = ctx.next_index % 4 == 3;
+    let Some(program) = c.build_with(extras) else { return };
+    let mut table = PhTable::default();
+    let input = case_to_sexp_with(c, extras, &mut table);
+    let sel = c.sel.clone();
+    ctx.case(input, move || observe(&program, &sel, &mut table));
+}
+
+pub fn case_to_sexp_with(c: &Case, extras: bool, t: &mut PhTable) -> Sexp {
     let defs = c
         .defs
         .iter()
@@ -199,7 +264,12 @@ pub fn case_to_sexp(c: &Case, t: &mut PhTable) -> Sexp {
         .collect();
     tagged(
         "prog",
-        vec![tagged("defs", defs), tagged("body", body), tagged("sel", c.sel.iter().map(|s| st(s.clone())).collect())],
+        vec![
+            tagged("defs", defs),
+            tagged("body", body),
+            tagged("sel", c.sel.iter().map(|s| st(s.clone())).collect()),
+            tagged("extras", vec![boolean(extras)]),
+        ],
     )
 }
 
@@ -233,14 +303,158 @@ pub fn body_to_sexp(p: &Program, t: &mut PhTable) -> Sexp {
 /// circuits, EXTERN pragmas).
 pub fn kept_to_sexp(original: &Program, result: &Program) -> (Sexp, Sexp) {
     let kept = tagged("kept", result.gate_definitions.keys().map(|k| st(k.clone())).collect());
-    let intact = result.gate_definitions.iter().all(|(k, d)| original.gate_definitions.get(k) == Some(d))
-        && result.calibrations == original.calibrations
-        && result.frames == original.frames
-        && result.memory_regions == original.memory_regions
-        && result.waveforms == original.waveforms
-        && result.circuits == original.circuits
-        && result.extern_pragma_map == original.extern_pragma_map;
+    // compared through the derived Debug text, not through quil-rs's own PartialEq
+    let dbg = |x: &dyn std::fmt::Debug| format!("{x:?}");
+    let intact = result
+        .gate_definitions
+        .iter()
+        .all(|(k, d)| *k == d.name && original.gate_definitions.get(k).map(|o| dbg(o)) == Some(dbg(d)))
+        && dbg(&result.calibrations) == dbg(&original.calibrations)
+        && dbg(&result.frames) == dbg(&original.frames)
+        && dbg(&result.memory_regions) == dbg(&original.memory_regions)
+        && dbg(&result.waveforms) == dbg(&original.waveforms)
+        && dbg(&result.circuits) == dbg(&original.circuits)
+        && dbg(&result.extern_pragma_map) == dbg(&original.extern_pragma_map);
     (kept, tagged("intact", vec![boolean(intact)]))
+}
+
+/// Two programs are the same: instruction list (every component, in `to_instructions` order) and used qubits,
+/// compared through Debug text (independent of `Program: PartialEq`), plus `PartialEq` itself.
+pub fn same_program(a: &Program, b: &Program) -> bool {
+    let used = |p: &Program| {
+        let mut v: Vec<String> = p.get_used_qubits().iter().map(|q| format!("{q:?}")).collect();
+        v.sort();
+        v
+    };
+    format!("{:?}", a.to_instructions()) == format!("{:?}", b.to_instructions()) && used(a) == used(b) && a == b
+}
+
+pub type SeqMap<'a> = SourceMap<InstructionIndex, ExpansionResult<DefGateSequenceExpansion<'a>>>;
+
+/// entry = (u src idx) | (r src "name" start stop (entry…))
+pub fn map_to_sexp(m: &SeqMap<'_>, original: &Program) -> Vec<Sexp> {
+    m.entries()
+        .iter()
+        .map(|e| {
+            let src = nat(e.source_location().0 as u64);
+            match e.target_location() {
+                ExpansionResult::Unmodified(i) => tagged("u", vec![src, nat(i.0 as u64)]),
+                ExpansionResult::Rewritten(x) => {
+                    let (name, text) = verif_hooks::c21::expansion_source_signature(x);
+                    // the recorded signature must be that of the program's definition of that name
+                    let sig_ok = original
+                        .gate_definitions
+                        .get(&name)
+                        .map(|d| d.to_quil_or_debug().starts_with(&format!("{text}:")))
+                        .unwrap_or(false);
+                    tagged(
+                        "r",
+                        vec![
+                            src,
+                            st(if sig_ok { name } else { format!("<bad-signature {text}>") }),
+                            nat(x.range().start.0 as u64),
+                            nat(x.range().end.0 as u64),
+                            list(map_to_sexp(x.nested_expansions(), original)),
+                        ],
+                    )
+                }
+            }
+        })
+        .collect()
+}
+
+/// Format an error every way a caller can (a panic in here is a crash of the case).
+fn format_error(e: &ProgramError) -> bool {
+    use std::error::Error;
+    let mut n = e.to_string().len() + format!("{e:#}").len() + format!("{e:?}").len();
+    let mut src = e.source();
+    while let Some(s) = src {
+        n += s.to_string().len();
+        src = s.source();
+    }
+    n > 0
+}
+
+fn plain_to_sexp(original: &Program, r: &Result<Program, ProgramError>, t: &mut PhTable) -> Sexp {
+    match r {
+        Ok(result) => {
+            let (kept, intact) = kept_to_sexp(original, result);
+            tagged("ok", vec![body_to_sexp(result, t), kept, intact])
+        }
+        Err(e) => tagged("err", vec![program_error_to_sexp(e, t)]),
+    }
+}
+
+/// The full observation of one case, shared by C20 and C21: BOTH entry points are run on every case.
+///
+///   (obs (plain P) (mapped P (map entry…) (ls (src…)…) (lt n…)) (fullsame b) (again b) (errfmt b))
+///   P = (ok (body instr…) (kept "name"…) (intact b)) | (err <error>)
+///
+/// * `plain`  = the consuming `Program::expand_defgate_sequences`
+/// * `mapped` = the borrowing `Program::expand_defgate_sequences_with_source_map`; `ls` = for every target index
+///   the source indices `SourceMap::list_sources` returns, `lt` = for every source index how many targets
+///   `list_targets` returns
+/// * `fullsame` = both returned programs are the same in every component (or both failed with equal errors)
+/// * `again` = sequences of calls: expanding the result a second time with the same filter changes nothing, and a
+///   second call of the borrowing variant on the same program returns the same program and map
+/// * `errfmt` = every returned error was formatted (Display, alternate, Debug, source chain)
+pub fn observe(program: &Program, sel: &[String], t: &mut PhTable) -> Sexp {
+    let plain = program.clone().expand_defgate_sequences(filter_of(sel));
+    let mapped = program.expand_defgate_sequences_with_source_map(filter_of(sel));
+    let mut errfmt = true;
+    if let Err(e) = &plain {
+        errfmt &= format_error(e);
+    }
+    if let Err(e) = &mapped {
+        errfmt &= format_error(e);
+    }
+    let plain_sexp = plain_to_sexp(program, &plain, t);
+    let (mapped_sexp, fullsame, mut again) = match &mapped {
+        Ok((result, map)) => {
+            let (kept, intact) = kept_to_sexp(program, result);
+            let n_out = result.body_instructions().count();
+            let n_src = program.body_instructions().count();
+            let ls = (0..n_out)
+                .map(|i| list(map.list_sources(&InstructionIndex(i)).into_iter().map(|s| nat(s.0 as u64)).collect()))
+                .collect();
+            let lt = (0..n_src).map(|i| nat(map.list_targets(&InstructionIndex(i)).len() as u64)).collect();
+            let sexp = tagged(
+                "ok",
+                vec![
+                    body_to_sexp(result, t),
+                    kept,
+                    intact,
+                    tagged("map", map_to_sexp(map, program)),
+                    tagged("ls", ls),
+                    tagged("lt", lt),
+                ],
+            );
+            let fullsame = matches!(&plain, Ok(p) if same_program(p, result));
+            let again = match program.expand_defgate_sequences_with_source_map(filter_of(sel)) {
+                Ok((r2, m2)) => same_program(&r2, result) && format!("{m2:?}") == format!("{map:?}"),
+                Err(_) => false,
+            };
+            (sexp, fullsame, again)
+        }
+        Err(e) => {
+            let fullsame = matches!(&plain, Err(p) if format!("{p:?}") == format!("{e:?}") && p == e);
+            let again = matches!(program.expand_defgate_sequences_with_source_map(filter_of(sel)), Err(e2) if format!("{e2:?}") == format!("{e:?}"));
+            (tagged("err", vec![program_error_to_sexp(e, t)]), fullsame, again)
+        }
+    };
+    if let Ok(p) = &plain {
+        again &= matches!(p.clone().expand_defgate_sequences(filter_of(sel)), Ok(p2) if same_program(&p2, p));
+    }
+    tagged(
+        "obs",
+        vec![
+            tagged("plain", vec![plain_sexp]),
+            tagged("mapped", vec![mapped_sexp]),
+            tagged("fullsame", vec![boolean(fullsame)]),
+            tagged("again", vec![boolean(again)]),
+            tagged("errfmt", vec![boolean(errfmt)]),
+        ],
+    )
 }
 
 // ------------------------------------------------------------------ small helpers for generators
@@ -512,7 +726,7 @@ pub fn exhaustive(max_len: usize, f: &mut impl FnMut(Case)) {
 
 // ------------------------------------------------------------------ stream 3: seeded random
 
-const POOL: [&str; 5] = ["a", "b", "c", "d", "e"];
+const POOL: [&str; 6] = ["a", "b", "c", "d", "e", "A"];
 const PLAIN: [&str; 4] = ["H", "X", "RZ", "CNOT"];
 const PVARS: [&str; 3] = ["x", "y", "z"];
 const QVARS: [&str; 3] = ["q", "r", "s"];
@@ -674,4 +888,179 @@ pub fn random_unchecked_case(rng: &mut Rng) -> Case {
         }
     }
     c
+}
+
+// ------------------------------------------------------------------ stream 5: large definition graphs
+
+/// 8–40 sequence definitions `d0 … dN` (plus a few non-sequence ones) whose bodies invoke each other (mostly
+/// towards higher indices, occasionally anywhere, so long chains, wide fans and a few cycles occur), a sparse
+/// or dense random filter, and a body of 3–12 invocations. Exercises the reachability (one `DfsSpace` reused
+/// over N² queries, `HashMap` iteration order) and deep nesting.
+pub fn random_big_case(rng: &mut Rng) -> Case {
+    let n = 8 + rng.below(33) as usize;
+    // one case in three is a long chain d0 → d1 → … (plus the random edges), so that reachability over many hops
+    // and nesting as deep as the chain occur
+    let chain = rng.chance(1, 3);
+    let names: Vec<String> = (0..n).map(|i| format!("d{i}")).collect();
+    let arity: Vec<(usize, usize)> = (0..n).map(|_| (rng.below(2) as usize, 1 + rng.below(2) as usize)).collect();
+    let mut defs = vec![];
+    for i in 0..n {
+        let (np, nq) = arity[i];
+        let params: Vec<String> = PVARS[..np].iter().map(|s| s.to_string()).collect();
+        let qvars: Vec<String> = QVARS[..nq].iter().map(|s| s.to_string()).collect();
+        if rng.chance(1, 12) {
+            defs.push(DefDesc { name: names[i].clone(), params, spec: SpecDesc::Other });
+            continue;
+        }
+        let len = rng.below(4) as usize;
+        let mut gates = vec![];
+        if chain && i + 1 < n {
+            let (cp, cq) = arity[i + 1];
+            let ps = (0..cp).map(|_| random_param(rng, 1)).collect();
+            let qs = (0..cq).map(|_| qv(rng.pick(qvars.as_slice()).as_str())).collect();
+            gates.push(gate(&names[i + 1], ps, qs, vec![]));
+        }
+        for _ in 0..len {
+            if rng.chance(3, 4) {
+                let j = if i + 1 < n && rng.chance(93, 100) {
+                    i + 1 + rng.below((n - i - 1) as u64) as usize
+                } else {
+                    rng.below(n as u64) as usize
+                };
+                let (cp, cq) = arity[j];
+                let ps = (0..cp).map(|_| random_param(rng, 1)).collect();
+                let qs = (0..cq).map(|_| qv(rng.pick(qvars.as_slice()).as_str())).collect();
+                gates.push(gate(&names[j], ps, qs, vec![]));
+            } else {
+                gates.push(gate("H", vec![], vec![qv(&qvars[0])], random_mods(rng, 5)));
+            }
+        }
+        defs.push(DefDesc { name: names[i].clone(), params, spec: SpecDesc::Seq { qvars, gates, unchecked: false } });
+    }
+    let blen = 3 + rng.below(10) as usize;
+    let mut body = vec![];
+    for _ in 0..blen {
+        if rng.chance(4, 5) {
+            let j = rng.below(n as u64) as usize;
+            let (cp, cq) = arity[j];
+            let ps = (0..cp).map(|_| random_param(rng, 1)).collect();
+            let qs = (0..cq).map(|_| Qubit::Fixed(rng.below(4))).collect();
+            body.push(ig(gate(&names[j], ps, qs, vec![])));
+        } else {
+            body.push(Item::Other(rng.below(other_table().len() as u64) as usize));
+        }
+    }
+    let p = match rng.below(5) {
+        0 => 100,
+        1 => 0,
+        2 => 90,
+        3 => 50,
+        _ => 15,
+    };
+    let sel = names.iter().filter(|_| rng.chance(p, 100)).cloned().collect();
+    Case { defs, body, sel }
+}
+
+/// A case that always expands successfully: 2–4 acyclic, arity-correct definitions (each may invoke later ones),
+/// and a body of `lo..=hi` instructions whose invocations all have the right arity, fixed qubits and no
+/// modifiers. Used for long bodies, where a single misuse would turn the whole case into an error.
+pub fn random_valid_case(rng: &mut Rng, lo: u64, hi: u64) -> Case {
+    let n = 2 + rng.below(3) as usize;
+    let names: Vec<&str> = POOL[..n].to_vec();
+    let arity: Vec<(usize, usize)> = (0..n).map(|_| (rng.below(3) as usize, 1 + rng.below(2) as usize)).collect();
+    let mut defs = vec![];
+    for i in 0..n {
+        let (np, nq) = arity[i];
+        let params: Vec<String> = PVARS[..np].iter().map(|s| s.to_string()).collect();
+        let qvars: Vec<String> = QVARS[..nq].iter().map(|s| s.to_string()).collect();
+        let len = rng.below(4) as usize;
+        let mut gates = vec![];
+        for _ in 0..len {
+            if i + 1 < n && rng.chance(1, 2) {
+                let j = i + 1 + rng.below((n - i - 1) as u64) as usize;
+                let (cp, cq) = arity[j];
+                let ps = (0..cp).map(|_| random_param(rng, 1)).collect();
+                let qs = (0..cq).map(|_| qv(rng.pick(qvars.as_slice()).as_str())).collect();
+                gates.push(gate(names[j], ps, qs, vec![]));
+            } else {
+                gates.push(gate("RZ", vec![random_param(rng, 1)], vec![qv(&qvars[0])], random_mods(rng, 10)));
+            }
+        }
+        defs.push(DefDesc { name: names[i].to_string(), params, spec: SpecDesc::Seq { qvars, gates, unchecked: false } });
+    }
+    let blen = lo + rng.below(hi - lo + 1);
+    let mut body = vec![];
+    for _ in 0..blen {
+        let r = rng.below(4);
+        if r < 2 {
+            let j = rng.below(n as u64) as usize;
+            let (cp, cq) = arity[j];
+            let ps = (0..cp).map(|_| random_param(rng, 1)).collect();
+            let qs = (0..cq).map(|_| Qubit::Fixed(rng.below(4))).collect();
+            body.push(ig(gate(names[j], ps, qs, vec![])));
+        } else if r == 2 {
+            body.push(ig(gate("H", vec![], vec![Qubit::Fixed(rng.below(4))], random_mods(rng, 10))));
+        } else {
+            body.push(Item::Other(rng.below(other_table().len() as u64) as usize));
+        }
+    }
+    let sel = match rng.below(4) {
+        0 => names.iter().filter(|_| rng.chance(1, 2)).map(|s| s.to_string()).collect(),
+        _ => names.iter().map(|s| s.to_string()).collect(),
+    };
+    Case { defs, body, sel }
+}
+
+/// The shared stream schedule of C20 and C21 (`base` separates their random streams).
+pub fn run_streams(ctx: &mut crate::Ctx, base: u64) {
+    // (1) corpus
+    for c in corpus() {
+        emit_case(ctx, &c);
+    }
+    // (2) exhaustive small alphabet: definitions of a, b with bodies of ≤ 1 (quick) / ≤ 2 (thorough) elements
+    let mut cases = vec![];
+    exhaustive(if ctx.quick() { 1 } else { 2 }, &mut |c| cases.push(c));
+    for c in &cases {
+        emit_case(ctx, c);
+    }
+    drop(cases);
+    // (3) seeded random, larger
+    let mut rng = ctx.rng(base);
+    let n = if ctx.quick() { 20_000 } else { 300_000 };
+    for i in 0..n {
+        let c = if i % 4 == 3 { random_case(&mut rng, 5, 10) } else { random_case(&mut rng, 4, 6) };
+        emit_case(ctx, &c);
+    }
+    // (4) definitions that bypass try_new (defensive error paths)
+    let mut rng = ctx.rng(base + 1);
+    let n = if ctx.quick() { 3_000 } else { 40_000 };
+    for _ in 0..n {
+        let c = random_unchecked_case(&mut rng);
+        emit_case(ctx, &c);
+    }
+    // (5) large definition graphs (8–40 definitions)
+    let mut rng = ctx.rng(base + 2);
+    let n = if ctx.quick() { 3_000 } else { 30_000 };
+    for _ in 0..n {
+        let c = random_big_case(&mut rng);
+        emit_case(ctx, &c);
+    }
+    // (6) long bodies (40–260 instructions: source-map index arithmetic well beyond small sizes)
+    let mut rng = ctx.rng(base + 3);
+    let n = if ctx.quick() { 300 } else { 4_000 };
+    for i in 0..n {
+        if i % 3 == 0 {
+            // mostly ends in an error somewhere in the long body: the error position / kind is the observation
+            let mut c = random_case(&mut rng, 4, 110);
+            while c.body.len() < 40 {
+                let more = random_case(&mut rng, 1, 60);
+                c.body.extend(more.body);
+            }
+            emit_case(ctx, &c);
+        } else {
+            // always succeeds: long source maps (70–260 entries, > 64 and > 128 sources)
+            let c = random_valid_case(&mut rng, 70, if i % 3 == 1 { 140 } else { 260 });
+            emit_case(ctx, &c);
+        }
+    }
 }
